@@ -171,7 +171,7 @@ def run(tier, seed):
             F = ctx.facts(es)
             ctype = ("load", ("field", RD, "curr_file_type", ("param", 0)))
             curr = ("load", ("field", RD, "curr_file", ("param", 0)))
-            tracked = {"normal": ("eq", ctype, NORMAL), "dangerous": ("ne", ("call", "is_dangerous_symlink", [curr]), 0)}
+            tracked = {"normal": ("eq", ctype, NORMAL), "dangerous": ("ne", ("call", "is_dangerous_symlink", [("or", curr, ("load", ("field", HDR, "symlink_target", curr)))]), 0)}   # judged on the current entry (the header, or its link target)
             ps = PathStates(es, F, tracked)
             calls = list(es.calls("lha_arch_symlink"))
             rep.check(rid, len(calls) == 1, "one real symlink site in extract_symlink", es.file, None, function=es.cname, obj="sites")
